@@ -81,6 +81,20 @@ CLAIMS.update({
     ref="DESIGN.md §5 C16"),
 })
 
+DNOTE = "Trusted: Coq kernel, ExtrOcamlBasic extraction, OCaml driver, Python orchestration; harness atomh = verbatim mirror of the lock-free source files compiled against instrumented atomics + deterministic scheduler (OS threads, one running at a time): explores sequentially consistent interleavings only. "
+CLAIMS.update({
+ "C12": dict(
+    text="Coq theorem (full, sequential): for every capacity >= 1 and every sequence of push/pop/pop-and-hold/release/close/len/is_closed the stamped ring buffer of queue.rs answers exactly like a bounded FIFO with one borrowable slot - Full exactly when capacity messages are outstanding, pops in push order each once, Closed only when closed and drained, len = queued (c12_seq_refines, c12_seq_step; representation invariant over slot stamps). Tie: op sequences (exhaustive to a bound + random over many laps, capacities 1..16) on the verbatim queue.rs vs the extracted model. Concurrent part NOT proved: 1-3 producers + consumer (+close) under thousands of random schedules at atomic-operation granularity on the real code, judged by an oracle (exactly-once, per-producer FIFO, capacity, quiescent len, close).",
+    note=DNOTE + "PARTIAL: no Coq theorem for concurrent executions (QueueConc.v of the design not built); the bit encoding of positions is abstracted (monotone re-encoding, exercised by correspondence); memory orderings recorded, not given a semantics; wake-up pairing (async_event, diatomic_waker) trusted.",
+    technique="Coq proof (refinement by representation invariant) + differential op-sequence correspondence on mirrored source + scheduled exploration with oracle",
+    ref="DESIGN.md §5 C12"),
+ "C15": dict(
+    text="Coq theorems for any written sequence, any number of readers and any schedule under sequential consistency: a successful read returns exactly a value the cell has held (c15_sc_not_torn), per reader the returned values follow the write order (c15_sc_monotone), via an inductive invariant over program counters (c15_invariant). Tie: the verbatim sync_cell.rs under the deterministic scheduler; the extracted model is run on the decisions actually taken and must return the same values per reader; the Ordering argument of every atomic operation is compared with the expected sequence; T1 checks the shape of TearableAtomicTime in the source.",
+    note=DNOTE + "PARTIAL: sequential consistency only - the C11 weak-memory part of the property (what the Release/Acquire fences are for) is NOT proved (WMem.v not built); an ordering-only change is reported as a broken correspondence with no-failing-input-found.",
+    technique="Coq proof (inductive invariant over interleavings, SC) + exact schedule-replay correspondence on mirrored source",
+    ref="DESIGN.md §5 C15, §4.6"),
+})
+
 PENDING_REASON = "check not built yet in this snapshot (planned per DESIGN.md section 5/8); not claimed until its check exists"
 
 def main():
